@@ -20,7 +20,7 @@ ASSUMPTIONS = [
 def plan(tier):
     if tier == "quick":
         return {"hostile": 3300, "steered": 2100, "start": 600}
-    return {"hostile": 100000, "steered": 60000, "start": 20000}
+    return {"hostile": 400000, "steered": 240000, "start": 80000}
 
 
 def floors(tier):
